@@ -249,6 +249,14 @@ CLAIMED = {
              "across buses by the Newton iteration is only a bounded stand-in (native runs on three fixed networks), labelled bounded.",
         note="Assumed: A-LOOKUP, linearity of finite sums. Not decided deductively: newtonpf with the slack variable, weight "
              "normalisation per island, xward result extraction."),
+    "C21": dict(
+        text="Proof for the generic ppc branch (real _branch_to_which / _from_ppc_branch): every branch is imported as exactly one of line / "
+             "transformer / impedance, as a line only if it connects one voltage level and has tap ratio 0 or 1 and no phase shift "
+             "(a branch with ratio or shift is never imported as a line); the created line has r * l = BR_R * Z_N, x alike, "
+             "2 pi f c' 1e-9 l Z_N = BR_B and the branch status - the inverse of the per-unit line build (C02), so the round trip "
+             "reproduces the branch parameters.",
+        note="Assumed: create_lines_from_parameters stores its arguments; the line pi model. Not decided: transformer and impedance "
+             "parameters, buses / gens / costs, to_ppc (the C02-contracted _pd2ppc), MATPOWER files, the power flow equality itself."),
 }
 
 NOT_APPLICABLE = {
